@@ -327,13 +327,15 @@ class ODataLexer(Lexer):
     ####################################################################################
     # Collection operators
     ####################################################################################
-    @_(_kw("any") + r"(?=\()")
+    # `any(` and `all(` are lambda operators at the end of a path only, anywhere
+    # else they are the start of a call of a function with that name:
+    @_(r"(?<=/)" + _kw("any") + r"(?=\()")
     def ANY(self, t):
         ":meta private:"
         t.value = ast.Any()
         return t
 
-    @_(_kw("all") + r"(?=\()")
+    @_(r"(?<=/)" + _kw("all") + r"(?=\()")
     def ALL(self, t):
         ":meta private:"
         t.value = ast.All()
